@@ -1,12 +1,26 @@
-import CollectionsC.Proofs.ArrayGrowth
+import CollectionsC.Proofs.ArrayGeometric
 import CollectionsC.Proofs.Stack
+import CollectionsC.Properties.C01
 /-! # C20 (array and stack part) — geometric growth and capacity invariants
 
 Statements only.  `size ≤ capacity ≤ allocated slots` is part of `Arr.Inv`, which every operation
-preserves (`C01.step_refines`); here: growth strictly increases the capacity for **every** growth
+preserves (`history_size_le_capacity`); growth strictly increases the capacity for **every** growth
 function (A7), trimming yields `max size 1` and never drops below the element count, contents are
-never changed by either, and with a growth function that at least doubles (the default factor 2)
-`n` appends cost at most `log2 (size) + 1` re-allocations. -/
+never changed by either.  Re-allocation counts, for every refusal schedule and both allocator triples:
+
+* `appends_realloc_log`: a growth function that at least doubles **on the capacities below the final
+  size** costs at most `log2 (size + n) + 1` re-allocations on `n` appends;
+* `appends_realloc_geometric`: every expansion factor `≥ 1 + 1/k` (`c + c / k ≤ grow c` below the
+  final size; the `capacity + 1` fallback included) costs at most `2k · (log2 (size + n) + 2)`.
+
+The hypotheses are stated on the range `c < size + n` only — a global `∀ c, 2c ≤ grow c` is
+incompatible with the byte-size limit and is *not* met by the shipped growth function: the library
+computes `(size_t)((float) c * 2.0f)`, and `(float) c` rounds `c` to 24 significant bits, so
+`2c ≤ grow c` holds exactly as long as the capacities are representable (`size + n ≤ 2^24 + 1`;
+e.g. `grow (2^24 + 1) = 2^25 < 2^25 + 2`), while `c + c / 2 ≤ grow c` holds on the whole range below
+`2^63` (the rounding error is at most `c / 2^24`).  `Float32` is opaque to the kernel, so these two
+facts about the C float arithmetic are assumptions of the reading of the theorems for the default
+factor, not theorems; the correspondence check exercises them on small capacities only. -/
 namespace CC.Properties.C20Array
 open CC
 
@@ -60,13 +74,34 @@ theorem trim_capacity (a : Arr) (m : Mem) (hinv : a.Inv) :
   · exact Or.inl ⟨ok, h3, h4.1, h1⟩
   · exact Or.inr ⟨e, hsame⟩
 
-/-- **O(log n) re-allocations** for a growth function that at least doubles: appending any list of
-`n` elements to an array with `size` elements performs at most `log2 (size + n) + 1` successful
-allocator calls — and not one more, whatever the initial capacity ≥ 1 -/
+/-- **O(log n) re-allocations** for a growth function that at least doubles the capacities below the
+final size: appending any list of `n` elements to an array with `size` elements performs at most
+`log2 (size + n) + 1` successful allocator calls through the array's triple — for every refusal
+schedule, whatever the initial capacity ≥ 1 -/
 theorem appends_realloc_log (a : Arr) (xs : List Nat) (m : Mem) (hinv : a.Inv)
-    (hd : ∀ c, 2 * c ≤ a.grow c) :
-    (a.addAll xs m).2.nalloc - m.nalloc ≤ Nat.log2 (a.size + xs.length) + 1 :=
+    (hd : ∀ c, c < a.size + xs.length → 2 * c ≤ a.grow c) :
+    Arr.allocs a.triple (a.addAll xs m).2 - Arr.allocs a.triple m ≤ Nat.log2 (a.size + xs.length) + 1 :=
   (Arr.addAll_realloc_log a xs m hinv hd).1
+
+/-- **every expansion factor > 1**: a growth function that multiplies the capacities below the final
+size by at least `1 + 1/k` (`k = 2` for the factor 1.5, `k = 10` for 1.1), falling back to
+`capacity + 1` where the product makes no progress, costs at most `2k · (log2 (size + n) + 2)`
+successful allocator calls — for every refusal schedule -/
+theorem appends_realloc_geometric (k : Nat) (hk : 1 ≤ k) (a : Arr) (xs : List Nat) (m : Mem) (hinv : a.Inv)
+    (hd : ∀ c, c < a.size + xs.length → c + c / k ≤ a.grow c) :
+    Arr.allocs a.triple (a.addAll xs m).2 - Arr.allocs a.triple m ≤ 2 * k * (Nat.log2 (a.size + xs.length) + 2) :=
+  Arr.addAll_realloc_geometric k hk a xs m hinv hd
+
+/-- the successive capacities are the iterates of `capStep grow` (the product, or `capacity + 1`),
+one per successful allocation, each step taken at a capacity below `size + n` — for **every** growth
+function and refusal schedule -/
+theorem appends_capacity_chain (a : Arr) (xs : List Nat) (m : Mem) (hinv : a.Inv) :
+    ∃ r, Arr.allocs a.triple (a.addAll xs m).2 = Arr.allocs a.triple m + r ∧
+      (a.addAll xs m).1.capacity = Arr.capIter (Arr.capStep a.grow) r a.capacity ∧
+      (∀ j, j < r → Arr.capIter (Arr.capStep a.grow) j a.capacity < a.size + xs.length) ∧
+      (a.addAll xs m).1.size ≤ (a.addAll xs m).1.capacity := by
+  obtain ⟨r, h1, h2, h3, h4⟩ := Arr.addAll_chain xs a m hinv
+  exact ⟨r, h1, h2, h3, h4.1⟩
 
 /-- **`trim_minimum`**: the documented minimum `max size 1`, never below the element count, content
 and size untouched, whatever the capacity was -/
@@ -78,17 +113,31 @@ theorem trim_minimum (a : Arr) (m : Mem) (hinv : a.Inv) (hok : (a.trimCapacity m
   · rw [e] at hok; simp at hok
 
 /-- **the concrete append process is `CC.Growth.appends`** (`Proofs/Growth.lean`): on an allocator
-that never refuses, with a growth function that at least doubles and stays below the byte-size limit,
-`n` appends leave exactly the abstract process's size and capacity and perform exactly its number of
-buffer allocations — hence at most `log2 (size + n) + 1` -/
-theorem appends_is_growth_process (a : Arr) (xs : List Nat) (m : Mem) (hinv : a.Inv)
-    (hs : m.sched = []) (hd : ∀ c, 2 * c ≤ a.grow c) (hb : ∀ c, a.grow c ≤ Gen.CC_MAX_ELEMENTS / 8) :
+that never refuses, with a growth function that — on the capacities below the final size — at least
+doubles and stays below the byte-size limit, `n` appends leave exactly the abstract process's size
+and capacity and perform exactly its number of buffer allocations — hence at most
+`log2 (size + n) + 1`.  (Hypotheses instantiated below.) -/
+theorem appends_is_growth_process (a : Arr) (xs : List Nat) (m : Mem) (hinv : a.Inv) (hs : m.sched = [])
+    (hd : ∀ c, c < a.size + xs.length → 2 * c ≤ a.grow c ∧ a.grow c ≤ Gen.CC_MAX_ELEMENTS / 8) :
     (a.addAll xs m).1.size = (Growth.appends a.grow a.size a.capacity xs.length).size ∧
     (a.addAll xs m).1.capacity = (Growth.appends a.grow a.size a.capacity xs.length).cap ∧
-    (a.addAll xs m).2.nalloc - m.nalloc = (Growth.appends a.grow a.size a.capacity xs.length).reallocs ∧
+    Arr.allocs a.triple (a.addAll xs m).2 - Arr.allocs a.triple m =
+      (Growth.appends a.grow a.size a.capacity xs.length).reallocs ∧
     (Growth.appends a.grow a.size a.capacity xs.length).reallocs ≤ Nat.log2 (a.size + xs.length) + 1 := by
-  obtain ⟨h1, h2, h3⟩ := Arr.addAll_eq_appends xs a m hinv hs hd hb
-  exact ⟨h1, h2, by omega, Growth.reallocs_le_log a.grow hd a.size a.capacity xs.length hinv.1 hinv.2.2.1⟩
+  obtain ⟨h1, h2, h3⟩ := Arr.addAll_eq_appends xs a m hinv hs hd
+  have h4 := (Arr.addAll_realloc_log a xs m hinv (fun c hc => (hd c hc).1)).1
+  exact ⟨h1, h2, by omega, by omega⟩
+
+/-- **`size ≤ capacity ≤ allocated slots ≤ CC_MAX_ELEMENTS / sizeof(void*)` at all times**: in every
+state reached by any history of the C01 vocabulary (trims and refused growth steps included) from a
+state satisfying the invariant, under every refusal schedule -/
+theorem history_size_le_capacity (cfg : Spec.Seq.Cfg) (ops : List Spec.Seq.Op) (a : Arr) (m : Mem) (hinv : a.Inv)
+    (hsort : ∀ xs, (cfg.sortFn xs).length = xs.length) :
+    (a.run cfg ops m).2.1.size ≤ (a.run cfg ops m).2.1.capacity ∧
+    (a.run cfg ops m).2.1.capacity ≤ (a.run cfg ops m).2.1.buf.length ∧
+    1 ≤ (a.run cfg ops m).2.1.capacity ∧ (a.run cfg ops m).2.1.capacity * 8 ≤ Gen.CC_MAX_ELEMENTS := by
+  have h := (C01.history_refines cfg ops a m hinv hsort).2.2.1
+  exact ⟨h.1, h.2.1, h.2.2.1, capacity_bytes_no_wrap _ h⟩
 
 /-- the stack inherits all of it: push = add -/
 theorem stack_push_capacity (s : Stack) (x : Nat) (m : Mem) (hinv : s.Inv) :
@@ -97,7 +146,28 @@ theorem stack_push_capacity (s : Stack) (x : Nat) (m : Mem) (hinv : s.Inv) :
   · exact ⟨g.capacity_le, g.2.1⟩
   · simp only [Stack.push]; rw [hsame]; exact ⟨Nat.le_refl _, hinv.1⟩
 
-/-! Non-vacuity of the doubling hypothesis: the default factor 2 (`c ↦ 2c`) satisfies it. -/
-example : ∀ c, 2 * c ≤ (fun c => 2 * c) c := fun _ => Nat.le_refl _
+/-! Non-vacuity.  The hypothesis bundle of `appends_is_growth_process` (and of `appends_realloc_log`)
+is met by the factor 2 on any array whose final size stays below a quarter of the limit; the bundle
+of `appends_realloc_geometric` by the factor 1.5 (`k = 2`); and a concrete run: five appends to a full
+array of capacity 1 re-allocate three times (1 → 2 → 4 → 8), with the factor 1.5 four times
+(1 → 2 → 3 → 4 → 6). -/
+example (a : Arr) (n : Nat) (hg : a.grow = fun c => 2 * c) (hn : 2 * (a.size + n) ≤ Gen.CC_MAX_ELEMENTS / 8) :
+    ∀ c, c < a.size + n → 2 * c ≤ a.grow c ∧ a.grow c ≤ Gen.CC_MAX_ELEMENTS / 8 := by
+  intro c hc; rw [hg]; simp only; omega
+
+example : ∀ c, c + c / 2 ≤ (fun c => c * 3 / 2) c := by intro c; simp only; omega
+
+example :
+    let a : Arr := Arr.mk 1 1 [7] (fun c => 2 * c) .conf
+    a.Inv ∧ ((a.addAll [1, 2, 3, 4, 5] {}).1.size, (a.addAll [1, 2, 3, 4, 5] {}).1.capacity,
+      (a.addAll [1, 2, 3, 4, 5] {}).2.nalloc) = (6, 8, 3) ∧
+    Growth.appends (fun c => 2 * c) 1 1 5 = ⟨6, 8, 3⟩ ∧ (a.addAll [1, 2, 3, 4, 5] {}).1.abs = [7, 1, 2, 3, 4, 5] := by
+  decide
+
+example :
+    let a : Arr := Arr.mk 1 1 [7] (fun c => c * 3 / 2) .conf
+    ((a.addAll [1, 2, 3, 4] {}).1.size, (a.addAll [1, 2, 3, 4] {}).1.capacity,
+      (a.addAll [1, 2, 3, 4] {}).2.nalloc) = (5, 6, 4) ∧
+    Arr.capIter (Arr.capStep a.grow) 4 1 = 6 := by decide
 
 end CC.Properties.C20Array
